@@ -336,7 +336,39 @@ fn incomplete_class(p: &Probe) -> Option<&'static str> {
     // server side: what RFC 4035 3.1.3 requires for this query in this zone is not all there
     let need = honest_nsecs(z, &chain, &p.q);
     if p.nsecs.is_empty() || !need.iter().all(|&i| has(i)) {
-        return Some("C08-server-proof-incomplete");
+        // known only when the reply carries exactly what the unchanged nsec_records() selects:
+        // the NSEC at qname, else closest_nsec(qname) and closest_nsec(parent of qname, or the
+        // origin), where closest_nsec(n) = the NSEC of the greatest owner <= n and finds nothing
+        // in a single-name zone.  Any other shortfall (e.g. no NSEC at all beside a
+        // wildcard-expanded answer) is new.
+        let closest = |n: &Nm| -> Option<usize> {
+            if chain.len() < 2 {
+                return None;
+            }
+            (0..chain.len()).rev().find(|&i| canon_cmp(&chain[i].owner, n) != Ordering::Greater)
+        };
+        let mut sel: Vec<usize> = vec![];
+        if let Some(i) = chain.iter().position(|r| r.owner == p.q) {
+            sel.push(i);
+        } else {
+            let mut w: Nm = p.q.clone();
+            w.pop();
+            if !is_prefix(&z.apex, &w) {
+                w = z.apex.clone();
+            }
+            if let Some(i) = closest(&p.q) {
+                sel.push(i);
+            }
+            if w != p.q {
+                if let Some(i) = closest(&w) {
+                    if !sel.contains(&i) {
+                        sel.push(i);
+                    }
+                }
+            }
+        }
+        let same = p.nsecs.iter().all(|r| sel.iter().any(|&i| chain[i].owner == r.owner)) && sel.iter().all(|&i| has(i));
+        return if same { Some("C08-server-proof-incomplete") } else { None };
     }
     // validator side
     let wild_answer = p.answers.iter().any(|a| wild_rrsig(a).is_some());
@@ -775,16 +807,41 @@ fn e2e_normalise(z: &Zone) -> Zone {
 fn gen_e2e_probe(seed: u64, index: u64) -> Probe {
     let zid = (index & (SWEEP_BASE - 1)) / PROBES_PER_ZONE;
     let mut zr = Rng::for_case(seed ^ 0x5a5a_0000, E2E_BASE + zid);
-    let z = e2e_normalise(&gen_zone(&mut zr, zid, zid % 2 == 0));
+    let mut z0 = gen_zone(&mut zr, zid, zid % 2 == 0);
+    // every third zone gets a wildcard whose RRset is a CNAME or of some other single type,
+    // and most of its queries ask names the wildcard matches for a DIFFERENT type
+    let mut forced: Option<(Nm, u16)> = None;
+    if zr.chance(1, 3) {
+        let base = if zr.chance(1, 2) { z0.apex.clone() } else { with(&z0.apex, zr.pick(&[&b"a"[..], b"b", b"x"]).to_vec()) };
+        let wt = *zr.pick(&[T_CNAME, T_CNAME, T_MX, T_TXT]);
+        let apex_a = z0.has(&z0.apex, T_A);
+        let mut rrs: Vec<(Nm, Vec<u16>)> = z0.rrs.iter().filter(|(n, _)| *n != with(&base, star())).cloned().collect();
+        rrs.push((with(&base, star()), vec![wt]));
+        z0 = finish_zone(z0.apex.clone(), rrs, apex_a);
+        if z0.is_owner(&with(&base, star())) {
+            forced = Some((base, wt));
+        }
+    }
+    let z = e2e_normalise(&z0);
     let mut r = Rng::for_case(seed, index);
-    let q = {
+    let mut q = {
         let mut q = gen_qname(&mut r, &z);
         if !is_prefix(&z.apex, &q) {
             q = gen_below(&mut r, &z.apex, 3, false);
         }
         q
     };
-    let qt = *r.pick(&[T_A, T_A, T_TXT, T_NS, T_DS, T_CNAME, T_MX]);
+    let mut qt = *r.pick(&[T_A, T_A, T_TXT, T_NS, T_DS, T_CNAME, T_MX]);
+    if let Some((base, wt)) = &forced {
+        if r.chance(2, 3) {
+            q = base.clone();
+            for _ in 0..r.range(1, 3) {
+                q.push(r.pick(&[&b"a"[..], b"b", b"c", b"0", b"x", b"zz"]).to_vec());
+            }
+            let others: Vec<u16> = [T_A, T_TXT, T_MX].iter().copied().filter(|t| t != wt).collect();
+            qt = *r.pick(&others);
+        }
+    }
     let ctx = build_server(&z);
     let mut referral = false;
     let (rc, soa, answers, nsecs, note) = match e2e_query(&ctx, &q, qt) {
